@@ -324,3 +324,27 @@ Print Assumptions inplace_target_accumulates.
 Theorem inplace_target_refuted : exists g r d q1 q2, ~ target_inplace g r d [q1] q2 == bellman r g d q2.
 Proof. exact target_inplace_refuted_lemma. Qed.
 Print Assumptions inplace_target_refuted.
+
+(* ================================================================ round 5: a learn() call that raises is a no-op *)
+From AgileV Require Import C08.ProofsR5.
+
+(* any history of completed and failed learn calls, any policy delay: counter and targets after it are those of the
+   history with the failed calls removed (so the targets move exactly at every policy_freq-th COMPLETED call) *)
+Theorem failed_calls_are_noops : forall tau pf cs c t,
+  run_calls tau pf c t cs = (c + length (completed cs), run_soft tau pf c t (completed cs))%nat.
+Proof. exact failed_calls_are_noops_lemma. Qed.
+Print Assumptions failed_calls_are_noops.
+
+(* the seeded change v2 (phase counter advanced at the top of learn) agrees with this on histories without failures ... *)
+Theorem counter_first_same_without_failures : forall tau pf es c t,
+  run_calls_v2 tau pf c t (map Done es) = run_calls tau pf c t (map Done es).
+Proof. exact v2_same_without_failures. Qed.
+Print Assumptions counter_first_same_without_failures.
+
+(* ... and shifts the phase after a failed call (witness: policy_freq 2, [Raised; Done; Done]) *)
+Theorem counter_first_shifts_phase_refuted :
+  exists tau pf t e1 e2,
+    snd (run_calls tau pf 0 t [Raised; Done e1; Done e2]) <> snd (run_calls_v2 tau pf 0 t [Raised; Done e1; Done e2]) /\
+    snd (run_calls tau pf 0 t [Done e1; Done e2]) = snd (run_calls_v2 tau pf 0 t [Done e1; Done e2]).
+Proof. exact v2_shifts_phase_refuted_lemma. Qed.
+Print Assumptions counter_first_shifts_phase_refuted.
